@@ -62,7 +62,8 @@ CBLAS_O := $(patsubst $(SLU_SRC)/CBLAS/%.c,$(B)/lib/CBLAS_%.o,$(CBLAS_C))
 else
 CBLAS_O :=
 endif
-LIB_O   := $(SRC_O) $(CBLAS_O) $(FORT_O)
+EX_O    := $(B)/lib/EXAMPLE_dreadtriple_noheader.o
+LIB_O   := $(SRC_O) $(CBLAS_O) $(FORT_O) $(EX_O)
 LIBA    := $(B)/libslu.a
 
 # ---- harness --------------------------------------------------------------
@@ -107,6 +108,8 @@ $(B)/lib/SRC_memory.o: $(SLU_SRC)/SRC/memory.c $(H)/vf_hooks.h Makefile | $(B)/l
 $(B)/lib/SRC_%.o: $(SLU_SRC)/SRC/%.c $(H)/vf_hooks.h | $(B)/lib build/gen/superlu_config.h
 	@$(CC) $(COMMON) $(VFLAGS) -MMD -MP -c $< -o $@
 $(B)/lib/CBLAS_%.o: $(SLU_SRC)/CBLAS/%.c $(H)/vf_hooks.h | $(B)/lib build/gen/superlu_config.h
+	@$(CC) $(COMMON) $(VFLAGS) -MMD -MP -c $< -o $@
+$(B)/lib/EXAMPLE_%.o: $(SLU_SRC)/EXAMPLE/%.c $(H)/vf_hooks.h | $(B)/lib build/gen/superlu_config.h
 	@$(CC) $(COMMON) $(VFLAGS) -MMD -MP -c $< -o $@
 $(B)/lib/FORTRAN_%.o: $(SLU_SRC)/FORTRAN/%.c $(H)/vf_hooks.h | $(B)/lib build/gen/superlu_config.h
 	@$(CC) $(COMMON) $(VFLAGS) -MMD -MP -c $< -o $@
